@@ -153,7 +153,7 @@ type engine struct {
 	setupFailed int
 }
 
-const long = 6 * time.Second
+var long = stack.Patience(6 * time.Second)
 
 type world struct {
 	e      *engine
@@ -351,7 +351,7 @@ func (w *world) teardown() {
 		}(cl)
 		select {
 		case <-done:
-		case <-time.After(2 * time.Second):
+		case <-time.After(stack.Patience(2 * time.Second)):
 		}
 	}
 }
